@@ -2098,6 +2098,48 @@ func TestChainStoreBackendFaults(t *testing.T) {
 			}
 		}
 	}
+	// the request's context ends while the per-leaf lookups are under way (the client went away, the deadline passed)
+	// and the lookups still answer: the page is refused or served whole - never 200 with leaves left in the stored
+	// form.  The context is ended from inside the k-th lookup, so no clock is involved.
+	for _, via := range []string{"entries", "proof"} {
+		for k := 1; k <= 3; k++ {
+			if via == "proof" && k > 1 {
+				continue // one leaf, one lookup
+			}
+			n++
+			cctx, cancel := context.WithCancel(context.Background())
+			var seen atomic.Int32
+			tw.rec.setDelay(func(op string, key []byte, err error) time.Duration {
+				if op == "find" && int(seen.Add(1)) == k {
+					cancel()
+				}
+				return 0
+			})
+			var code int
+			var ents []ct.LeafEntry
+			var err error
+			if via == "entries" {
+				code, ents, err = readRange(cctx, tw.x, tw, 0, 2)
+			} else {
+				var li, ex []byte
+				code, li, ex, err = readEntryCtx(cctx, tw, "proof", 1, 3)
+				ents = []ct.LeafEntry{{LeafInput: li, ExtraData: ex}}
+			}
+			tw.rec.setDelay(nil)
+			cancel()
+			want := good
+			if via == "proof" {
+				want = good[1:2]
+			}
+			switch {
+			case err != nil && code == 0:
+				rep.Violate(fmt.Sprintf("chainstore:cancelled-read:%s:panic", via), "read with external chain storage whose context ends during the lookups: "+err.Error(), nil)
+			case code == 200 && !sameEntries(ents, want):
+				rep.Violate(fmt.Sprintf("chainstore:cancelled-read:%s:200-unfixed", via), fmt.Sprintf("the context of the request ended during lookup %d of the per-leaf work; the answer is 200 with entries that are not the ones the intact read serves (leaves left in the stored hash form)", k), nil)
+			}
+			rep.Eval(fmt.Sprintf("%s/cancelled/%d", via, k))
+		}
+	}
 	// the untouched page is served (the cases above left nothing behind)
 	if code, ents, err := readRange(context.Background(), tw.x, tw, 0, 2); err != nil || code != 200 || len(ents) != 3 {
 		rep.Violate("chainstore:backendfault:page:untouched", fmt.Sprintf("get-entries(0,2) of an intact page answered %d with %d entries %v", code, len(ents), err), nil)
